@@ -16,7 +16,8 @@ HOSTILE_NAMES = ["a.1", "a-b", "if", "class", "1a", "a.b.c", "_", "A", "construc
 
 
 # valid JavaScript bodies of script modules, including ones whose last token is a comment without a line end
-SCRIPT_BODIES = ["exports.f=function(x){return x}", "exports.f=function(x){return x} // trailing comment", "exports.f=function(x){return x}\n<!-- html comment",
+SCRIPT_BODIES = ["exports.f=function(x){return x} // comment, then a blank ", "exports.f=function(x){return x} // comment, then a tab\t", "exports.f=1 //\u00a0", "exports.f=1 // c\r",
+                 "exports.f=function(x){return x}", "exports.f=function(x){return x} // trailing comment", "exports.f=function(x){return x}\n<!-- html comment",
                  "exports.f=function(x){return x};/* c */", "// only a comment", "", "exports.f=function(x){return x}\n", "exports.f=(x)=>x // }"]
 
 
@@ -33,7 +34,8 @@ def run(chk):
                        "PARTIAL: proved = identifiers (valid, unreserved, distinct), string literals, value expressions and hoisted statements, if-selector statements; "
                        "the statement skeleton of the tag-level generator (arrow functions, var lists, if/else blocks) is covered by the oracle only"]
     chk.model_tie([("GE.Thm.C02VarName", THM_VARNAME), ("GE.Thm.C04", THM_EXPR), ("GE.Thm.C12", THM_LIT),
-                   ("GE.Thm.C02Args", ["GE.ChildArgs.args_cover", "GE.ChildArgs.table_ok_range", "GE.ChildArgs.params_text", "GE.ChildArgs.childLevel_keys"])])
+                   ("GE.Thm.C02Args", ["GE.ChildArgs.args_cover", "GE.ChildArgs.table_ok_range", "GE.ChildArgs.params_text", "GE.ChildArgs.childLevel_keys"]),
+                   ("GE.Thm.C02Writer", ["GE.JsWriter.monitor_sound", "GE.JsWriter.names_fresh", "GE.JsWriter.runFs_keeps", "GE.JsWriter.allocId_spec"])])
     from . import childargs
     childargs.run(chk)
     rng = chk.rng.fork("c02")
@@ -114,6 +116,8 @@ def run(chk):
     filesets.append({"files": [["deep", deep * 50]]})
     # many identifiers in one scope (names beyond one letter, incl. the ids that spell reserved words)
     filesets.append({"files": [["wide", "".join('<v a="{{x%d}}"><v/></v>' % i for i in range(3000))]]})
+    from . import jswriter
+    jswriter.run(chk, filesets, cap=150 if quick else 1500)
     answers = core.run_harness([core.req("group", json.dumps(fs)) for fs in filesets], timeout=3600)
     sreqs, smeta = [], []
     for fi, (fs, a) in enumerate(zip(filesets, answers)):
